@@ -174,6 +174,52 @@ def reference_firsts(prods, nts):
     return first
 
 
+def closure_mismatch(g, prods, ref, lr1):
+    """Compares every entry of g._closure_of_item_cache (and the closure of every item of every state) with an independent
+    worklist closure over (lhs, rhs, dot, lookahead) tuples."""
+    ntset = set(l for (l, r) in prods) | {lr1.START_PRIME if hasattr(lr1, "START_PRIME") else "S'"}
+    by_lhs = {}
+    for prod in g.productions:
+        by_lhs.setdefault(prod.lhs, []).append(prod)
+
+    def first_of(symbols):
+        out = set()
+        for s_ in symbols:
+            f = ref[s_] if s_ in ref else {s_}
+            out |= {t for t in f if t is not None}
+            if None not in f:
+                return out
+        out.add(None)
+        return out
+
+    def key(it):
+        return (it.production.lhs, tuple(it.production.rhs), it.dot, it.terminal)
+
+    def ref_closure(item):
+        seen = {key(item)}
+        todo = [(item.production, item.dot, item.terminal)]
+        while todo:
+            prod, dot, la = todo.pop()
+            if dot >= len(prod.rhs):
+                continue
+            nxt = prod.rhs[dot]
+            for p2 in by_lhs.get(nxt, []):
+                for b in first_of(tuple(prod.rhs[dot + 1:]) + (la,)):
+                    if b is None:
+                        continue
+                    k2 = (p2.lhs, tuple(p2.rhs), 0, b)
+                    if k2 not in seen:
+                        seen.add(k2)
+                        todo.append((p2, 0, b))
+        return seen
+    for item, got in list(g._closure_of_item_cache.items()):
+        want = ref_closure(item)
+        have = {key(i) for i in got}
+        if have != want:
+            return {"item": str(item), "missing": sorted(map(str, want - have))[:6], "extra": sorted(map(str, have - want))[:6]}
+    return None
+
+
 def check_grammar(args):
     prods, start, terms, nts = args
     try:
@@ -189,6 +235,11 @@ def check_grammar(args):
             parser = g.parser()
         except Exception as e:
             return ("parser()-raises", {"grammar": prods, "exception": "%s: %s" % (type(e).__name__, e)}, 0)
+        # contract of Grammar._closure_of_item, on every memoised entry left behind by table construction: the closure of an
+        # item is the least set containing it and closed under  A -> x . B y, a  =>  B -> . z, b  for b in FIRST(y a)
+        bad = closure_mismatch(g, prods, ref, lr1)
+        if bad is not None:
+            return ("closure-is-the-least-closed-set", dict(bad, grammar=prods), 0)
         prodset = set((l, tuple(r)) for (l, r) in prods)
         ntset = set(nts)
         n_strings = 0
@@ -328,10 +379,31 @@ def emboss_grammar_check(run, rng, tier):
     return n
 
 
+def structural_grammars():
+    """Hand-shaped families the random generators practically never hit: indirect left recursion through unit productions
+    (closure cycles of length 2..4, re-entered from a later member), nullable prefixes in front of delayed FIRST sets."""
+    out = []
+    for n in (2, 3, 4):
+        nts = ["A%d" % i for i in range(n)]
+        for tail in ((), ("!",)):
+            ps = [(nts[0], ("n",)), (nts[0], (nts[1],) + ("!",))]
+            for i in range(1, n - 1):
+                ps.append((nts[i], (nts[i + 1],)))
+            ps.append((nts[n - 1], (nts[0],)))
+            ps.append((nts[n - 1], ("-", nts[0]) + tail))
+            out.append((ps, nts[0], ["n", "!", "-"], nts))
+    out.append(([("P", ("E", "E")), ("E", ("V",)), ("V", ("x",)), ("V", ("P", "."))], "P", ["x", "."], ["P", "E", "V"]))
+    out.append(([("S", ("Y", "A")), ("Y", ("y",)), ("A", ("B", "C")), ("B", ("b",)), ("B", ()), ("C", ("D",)), ("D", ("d",))], "S", ["y", "b", "d"], ["S", "Y", "A", "B", "C", "D"]))
+    out.append(([("S", ("Y", "A")), ("S", ("Z", "d")), ("Z", ("y",)), ("Y", ("y",)), ("A", ("B", "C")), ("B", ("b",)), ("B", ()), ("C", ("D",)), ("D", ("d",))], "S", ["y", "b", "d"],
+                ["S", "Y", "Z", "A", "B", "C", "D"]))
+    out.append(([("E", ("E", "+", "T")), ("E", ("T",)), ("T", ("T", "*", "F")), ("T", ("F",)), ("F", ("(", "E", ")")), ("F", ("i",))], "E", ["i", "+", "*", "(", ")"], ["E", "T", "F"]))
+    return out
+
+
 def main(args):
     run = core.Run("C08", args.tier, "exploration", "./check C08 --tier " + args.tier)
     rng = random.Random(run.seed)
-    gs = list(small_grammars())
+    gs = structural_grammars() + list(small_grammars())
     if args.tier == "quick":
         # the exhaustive 1-2 production part always, a seeded third of the 3-production grammars
         gs = [g for g in gs if len(g[0]) <= 2] + [g for g in gs if len(g[0]) == 3 and rng.random() < 0.25]
@@ -349,7 +421,7 @@ def main(args):
             conflict_free += 1
         if clause:
             fails.setdefault(clause, []).append(bad)
-    clauses = ["parser()-raises", "FIRST-is-the-least-fixed-point", "accepts-exactly-the-language", "tree-is-a-derivation", "tree-leaves-equal-input", "error-at-first-non-viable-token",
+    clauses = ["parser()-raises", "FIRST-is-the-least-fixed-point", "closure-is-the-least-closed-set", "accepts-exactly-the-language", "tree-is-a-derivation", "tree-leaves-equal-input", "error-at-first-non-viable-token",
                "ambiguous-grammar-reports-conflict", "checker-crash"]
     for cl in clauses:
         if cl == "checker-crash":
